@@ -10,7 +10,7 @@ State = what is on disk, abstractly:
 * `upMetas`   : the `.bucket-B.object-K.upload-U.metadata.json` side files;
 * `infos`     : the `.bucket-B.object-K.internal.json` side files (checksums);
 * `uploads`   : the `.upload-U.json` files: id ↦ access key of the creator and the bucket and key
-                `create_multipart_upload` was called with (6bf591c: the record holds them and every operation on the
+                `create_multipart_upload` was called with (41e1cf2: the record holds them and every operation on the
                 upload compares them with the request; a record of the older form, the access key only, is still
                 read — no operation writes one, so no state of the model holds one);
 * `parts`     : the `.upload_id-U.part-N` files;
@@ -329,14 +329,14 @@ def State.loadMeta (s : State) (b k : Bytes) : Option Meta :=
     | some (.good m) => some m
     | some .corrupt => none
 
-/-- `check_upload_exists` (4609ab3, 6bf591c): the record of the upload, if it exists and names this bucket and this key
+/-- `check_upload_exists` (4609ab3, 41e1cf2): the record of the upload, if it exists and names this bucket and this key
     (compared as the strings of the requests); `none` → `NoSuchUpload` -/
 def State.findUpload (s : State) (id : Nat) (b k : Bytes) : Option UpInfo :=
   match alLookup id s.uploads with
   | none => none
   | some u => if u.bucket = b ∧ u.key = k then some u else none
 
-/-- `verify_upload_id` (4609ab3, 6bf591c): `NoSuchUpload` when the upload record does not exist or names another bucket or
+/-- `verify_upload_id` (4609ab3, 41e1cf2): `NoSuchUpload` when the upload record does not exist or names another bucket or
     key, then `AccessDenied` when it names other credentials; `none` = the upload exists here and belongs to the requester -/
 def State.verify (s : State) (who : Who) (id : Nat) (b k : Bytes) : Option Err :=
   match s.findUpload id b k with
@@ -406,7 +406,7 @@ def step (H : Hashes) (dirLen : Nat) (s : State) : Op → State × Resp
     else match objPath b k with
       | .error e => (s, .err e)
       | .ok (bd, p) =>
-        -- 4f3e079: `check_side_file_names`: the metadata / checksum files of the object must be nameable — refused
+        -- c3dcb24: `check_side_file_names`: the metadata / checksum files of the object must be nameable — refused
         -- before the temporary file is created (before, the object file was written and the request then failed with
         -- `InternalError` at the first side file)
         if sideTooLong b k false then (s, .err .KeyTooLongError)
@@ -623,7 +623,7 @@ def step (H : Hashes) (dirLen : Nat) (s : State) : Op → State × Resp
                 let body := (c.drop start).take cl
                 ({ s with parts := alInsert (id, n) body s.parts }, .part (some (etagOf H body)))
   | .listParts _who b k u =>
-    -- 4609ab3, 6bf591c: the upload must exist under this bucket and key (`check_upload_exists`; whose it is does not
+    -- 4609ab3, 41e1cf2: the upload must exist under this bucket and key (`check_upload_exists`; whose it is does not
     -- matter here)
     match u with
     | none => (s, .err .NoSuchUpload)
